@@ -24,7 +24,14 @@ CLAIMED["C15"] = dict(
   note="Trusted: sim/models/rsysgraph.py. The first argument of concatenate is retired (its mutation is unspecified). identify_equilibria asserted exactly only when reverse partners are unique. Random reactions are not element-balanced: formula-mode systems are built with dont_check={'balance'} or checks=().",
   design_ref="DESIGN.md section 3.4")
 
-PENDING = {"C08": "check under construction in this session (claimed in DESIGN.md; will move to checks when built)"}
+CLAIMED["C08"] = dict(
+  level="fault_enumeration",
+  technique="deterministic simulation with fault injection: in-process fake of the delegated non-linear solver (SimSolver under pyneqsys' own backend dispatch), every fault kind enumerated at every solver invocation of seeded equilibrium systems on re-used solver objects, defining-equation oracle by own arithmetic, fixed liveness panel, ddmin-minimised replay",
+  text="Seeded systems (acid/base/complexation pool, constants jittered over decades, starts over six decades incl. exact zeros; single-salt precipitation under/exactly/over-saturated) are solved by root/roots/solve/solve_equilibrium under each chain. Fault-free, every point flagged success-and-sane must satisfy non-negativity, element/charge conservation (1e-6), Q = K (1e-5 in ln) and the solid clauses; then for every solver invocation of that call every SimSolver fault (early stop with budgets, NaN/inf/garbage iterates reported as failure, failure reported at the root, exceptions raised inside the solver) is injected once on the same solver objects: soundness must still hold, a failed last invocation must not be reported as success, and a fault-free call afterwards must reproduce the pre-fault result (no sticky state). Liveness (>= 19/20) is judged on a fixed seed-independent panel in the well-conditioned sub-domain for both default entry points; single-equilibrium answers are compared with the bracketing scalar solver.",
+  note="Trusted: sim/models/equilibrium.py (compositions, constants, oracle), the real pyneqsys/scipy. Not injected: a Byzantine solver (success=True with an altered iterate). Two known findings are listed, not alarmed: least-squares convergence reported as success (sig own_residual_large), linear formulations started from an exact zero. Violations with those signatures are the only ones suppressed.",
+  design_ref="DESIGN.md section 3.2")
+
+PENDING = {}
 
 NA = {
  "C01": "formula parsing is a pure function of the input string; the only shared object (memoised pyparsing grammar) is never written after construction and chempy has no second task, clock or I/O on this path: nothing to schedule or fault (parser misreads do surface through C02's independent composition oracle)",
